@@ -30,7 +30,7 @@ PFIELDS = ["RA", "Dec", "ZoomLevel"]
 def cases(tier, seed):
     R = random.Random("c09/%d" % seed)
     out = []
-    for i in range(60 if tier == "quick" else 600):
+    for i in range(60 if tier == "quick" else 2000):
         out.append(dict(W=R.randrange(260, 1100), H=R.randrange(260, 1100), n=R.choice([1, 2, 3, 4, 6, 9]), overlap=R.choice([0, 0, 7, 40]),
                         nanborder=R.choice([0, 0, 3]), dtype=R.choice(["F32", "F32", "F32", "I16"]), bu=R.random() < 0.5, par=R.choice([1, 2, 3, 8]),
                         via=R.choice(["api", "api", "cli"]), profile=R.choice(["jitter", "slow_workers", "natural"]), seed=R.randrange(1 << 30)))
